@@ -284,6 +284,7 @@ def load_known_findings():
     """known_findings.json (+ fragments under known_findings.d/): {"findings": [...], "fixed": [...]}"""
     import glob
     out = {"findings": [], "fixed": []}
+    seen = set()
     paths = [os.path.join(VERIF, "known_findings.json")] + sorted(glob.glob(os.path.join(VERIF, "known_findings.d", "*.json")))
     for p in paths:
         if not os.path.exists(p):
@@ -292,8 +293,16 @@ def load_known_findings():
             d = json.load(f)
         if isinstance(d, list):
             d = {"findings": [x for x in d if "fixed" not in x], "fixed": [x for x in d if "fixed" in x]}
-        out["findings"] += d.get("findings", [])
-        out["fixed"] += d.get("fixed", [])
+        for f in d.get("findings", []):
+            k = json.dumps(f, sort_keys=True)
+            if k not in seen:
+                seen.add(k)
+                out["findings"].append(f)
+        for f in d.get("fixed", []):
+            k = json.dumps(f, sort_keys=True)
+            if k not in seen:
+                seen.add(k)
+                out["fixed"].append(f)
     return out
 
 
